@@ -78,7 +78,9 @@ type IPWalk struct {
 	seen     map[ipKey]bool
 	parent   map[ipKey]ipKey
 	TooDeep  bool
-	Reached  map[Node]bool
+	// StartFailed: the walk starts after the start nodes (call instructions) assuming each returned a non-nil error.
+	StartFailed bool
+	Reached     map[Node]bool
 	firstKey map[Node]ipKey
 }
 
@@ -236,7 +238,13 @@ func (w *IPWalk) Run(entry *Ctx, starts []Node) {
 		for i, in := range b.Instrs {
 			if in == n.In {
 				from := ipKey{n.Ctx, n.In, nil, nil, "", ""}
-				w.afterInstr(from, ipState{ctx: n.Ctx, b: b, i: i}, push, true)
+				st0 := ipState{ctx: n.Ctx, b: b, i: i}
+				if w.StartFailed {
+					// explore what follows when the call at the start node returned an error
+					st0.failed = n.In
+					st0.fx = st0.fx.withErrResult(n.In, false)
+				}
+				w.afterInstr(from, st0, push, true)
 			}
 		}
 	}
